@@ -103,8 +103,8 @@ pub static mut G: Globals = Globals {
 /// the runtime): `TOK[t][0]` is `wasip3_task::ptr` of task `t`, `TOK[t][k]`
 /// its k-th clone.  Real addresses rather than integers cast to pointers,
 /// because pointer/integer casts are very expensive for CBMC.
-pub const MAXCLONE: usize = 4;
-pub static mut TOK: [[u8; MAXCLONE]; NTASK] = [[0xa1, 0xa2, 0xa3, 0xa4], [0xb1, 0xb2, 0xb3, 0xb4]];
+pub const MAXCLONE: usize = 6;
+pub static mut TOK: [[u8; MAXCLONE]; NTASK] = [[0xa1, 0xa2, 0xa3, 0xa4, 0xa5, 0xa6], [0xb1, 0xb2, 0xb3, 0xb4, 0xb5, 0xb6]];
 
 pub fn task_ptr(t: usize) -> *mut c_void {
     unsafe { ptr::addr_of_mut!(TOK[t][0]) as *mut c_void }
@@ -121,7 +121,7 @@ fn decode<const T: usize>(p: *mut c_void) -> u32 {
             return 0;
         }
         assert!(G.clone_distinct, "task callback invoked with a pointer that is not the task's");
-        // MAXCLONE == 4, unrolled by hand (no loop: harness unwind bounds stay about the code under test)
+        // MAXCLONE == 6, unrolled by hand (no loop: harness unwind bounds stay about the code under test)
         if p == ptr::addr_of!(TOK[T][1]) {
             return 1;
         }
@@ -130,6 +130,12 @@ fn decode<const T: usize>(p: *mut c_void) -> u32 {
         }
         if p == ptr::addr_of!(TOK[T][3]) {
             return 3;
+        }
+        if p == ptr::addr_of!(TOK[T][4]) {
+            return 4;
+        }
+        if p == ptr::addr_of!(TOK[T][5]) {
+            return 5;
         }
     }
     assert!(false, "task callback invoked with a pointer that does not belong to this task");
@@ -211,7 +217,7 @@ pub unsafe extern "C" fn t_clone<const T: usize>(p: *mut c_void) -> *mut c_void 
     L[T].clones_made += 1;
     if G.clone_distinct {
         let k = L[T].clones_made;
-        assert!((k as usize) < MAXCLONE, "harness bound: at most 3 clones per task");
+        assert!((k as usize) < MAXCLONE, "harness bound: at most 5 clones per task");
         L[T].clone_mask |= 1 << k;
         ptr::addr_of_mut!(TOK[T][k as usize]) as *mut c_void
     } else {
